@@ -1,6 +1,7 @@
 package main
 
 import (
+	"fmt"
 	"go/ast"
 	"go/token"
 	"go/types"
@@ -238,7 +239,7 @@ func ruleR04l(c *Ctx) {
 			return true
 		})
 	}
-	c.floor("R04l", "scope map-literal keys", 4, nkeys)
+	c.floor("R04l", "scope map-literal keys", 3, nkeys)
 	c.floor("R04l", "scope look-ups inside scope helpers", 2, nlook)
 }
 
@@ -266,7 +267,11 @@ func ruleR04m(c *Ctx) {
 					e = x.X
 					continue
 				case *ast.SelectorExpr:
+					// a numeric counter used to generate fresh names is not state about bindings
 					if fv := fieldOf(x, info); fv != nil {
+						if b, ok := fv.Type().Underlying().(*types.Basic); ok && b.Info()&types.IsNumeric != 0 {
+							return
+						}
 						set[fv.Name()] = true
 					}
 				}
@@ -292,7 +297,7 @@ func ruleR04m(c *Ctx) {
 		touched[k] = set
 		names = append(names, k)
 	}
-	c.floor("R04m", "scope methods that add a binding", 3, len(names))
+	c.floor("R04m", "scope methods that add a binding", 2, len(names))
 	union := map[string]bool{}
 	for _, s := range touched {
 		for f := range s {
@@ -324,4 +329,116 @@ func joinStrings(ss []string) string {
 		out += s
 	}
 	return out
+}
+
+// R04n: the generator binds a loop variable around the loop body only. Between the call that binds the
+// variable of a {for}/{foreach} (a scope binder handed node.Var) and the matching pop, the only part of the
+// loop node that is generated is its Body: the list expression, the range() arguments and {ifempty} belong
+// to the enclosing scope (as in the Go renderer and the data-reference check), so they are emitted outside.
+func ruleR04n(c *Ctx) {
+	p := c.pkg("soyjs")
+	if p == nil {
+		return
+	}
+	info := p.TypesInfo
+	binders := scopeBinderMethods(c, "soyjs", "scope")
+	astPkg := c.pkg("ast")
+	nodeIface, _ := astPkg.Types.Scope().Lookup("Node").Type().Underlying().(*types.Interface)
+	n := 0
+	for _, fd := range c.allFuncDecls("soyjs") {
+		// binder calls whose first argument is the loop variable field of a ForNode; each is looked at inside
+		// the innermost function body (declaration or literal) that contains it
+		type region struct{ from, to token.Pos }
+		var regions []region
+		var bodies []*ast.BlockStmt
+		bodies = append(bodies, fd.Body)
+		ast.Inspect(fd.Body, func(x ast.Node) bool {
+			if fl, ok := x.(*ast.FuncLit); ok {
+				bodies = append(bodies, fl.Body)
+			}
+			return true
+		})
+		for _, body := range bodies {
+			var pops []token.Pos
+			deferredPop := false
+			var binds []token.Pos
+			ast.Inspect(body, func(x ast.Node) bool {
+				if fl, ok := x.(*ast.FuncLit); ok && fl.Body != body {
+					return false
+				}
+				if d, ok := x.(*ast.DeferStmt); ok {
+					if cal := calleeFunc(d.Call, info); cal != nil && cal.Name() == "pop" {
+						deferredPop = true
+					}
+					return false
+				}
+				call, ok := x.(*ast.CallExpr)
+				if !ok {
+					return true
+				}
+				cal := calleeFunc(call, info)
+				if cal == nil {
+					return true
+				}
+				if cal.Name() == "pop" {
+					pops = append(pops, call.Pos())
+				}
+				if binders[cal] && len(call.Args) > 0 {
+					if fv := fieldOf(call.Args[0], info); fv != nil && fv.Name() == "Var" {
+						binds = append(binds, call.End())
+					}
+				}
+				return true
+			})
+			for _, from := range binds {
+				rg := region{from, body.End()}
+				if !deferredPop {
+					for _, pp := range pops {
+						if pp > rg.from && pp < rg.to {
+							rg.to = pp
+						}
+					}
+				}
+				regions = append(regions, rg)
+			}
+		}
+		for ri, rg := range regions {
+			n++
+			var offending []string
+			ast.Inspect(fd.Body, func(x ast.Node) bool {
+				call, ok := x.(*ast.CallExpr)
+				if !ok || call.Pos() < rg.from || call.Pos() >= rg.to {
+					return true
+				}
+				cal := calleeFunc(call, info)
+				if cal == nil || (cal.Name() != "js" && cal.Name() != "jsln" && cal.Name() != "walk") {
+					return true
+				}
+				for _, a := range call.Args {
+					tv, ok := info.Types[a]
+					if !ok || tv.Type == nil || tv.Value != nil {
+						continue
+					}
+					if !types.Implements(tv.Type, nodeIface) && !types.IsInterface(tv.Type) {
+						continue
+					}
+					if b, isBasic := tv.Type.Underlying().(*types.Basic); isBasic && b.Info()&types.IsString != 0 {
+						continue
+					}
+					if !types.Implements(tv.Type, nodeIface) {
+						continue
+					}
+					if fv := fieldOf(a, info); fv != nil && fv.Name() == "Body" {
+						continue
+					}
+					offending = append(offending, exprKey(a))
+				}
+				return true
+			})
+			key := fmt.Sprintf("%s loop-variable-scope#%d", c.declKey("soyjs", fd), ri+1)
+			c.check(len(offending) == 0, "R04n", key, rg.from, "only the loop body is generated while the loop variable is bound",
+				"while the loop variable is bound the generator also emits "+joinStrings(offending)+": a reference there to an outer variable of the same name resolves to the loop's own variable (the Go renderer evaluates it in the enclosing scope)")
+		}
+	}
+	c.floor("R04n", "loop-variable bindings in the generator", 2, n)
 }
